@@ -1,4 +1,4 @@
 From TLXV Require Import C09.LoserTree C09.Spec.
 Require Extraction. Require ExtrOcamlBasic.
 Extraction Language OCaml.
-Extraction "../ocaml/gen/C09_model.ml" Spec.run_N Spec.check_N LoserTree.invalid_.
+Extraction "../ocaml/gen/C09_model.ml" Spec.run_N Spec.check_N Spec.run_gN Spec.check_gN LoserTree.invalid_.
